@@ -27,15 +27,36 @@ pub type OptT = Option<(u32, Vec<u8>)>;
 
 pub const KINDS: &[&str] = &["string", "bytes", "bincode_dummy", "bincode_vec", "bincode_opt", "gzip", "zlib", "zstd", "lz4", "brotli"];
 
-fn valid_input(kind: &str, r: &mut Rng) -> Vec<u8> {
+fn fnv(b: &[u8]) -> u64 {
+    let mut h: u64 = 0xcbf29ce484222325;
+    for x in b {
+        h ^= *x as u64;
+        h = h.wrapping_mul(0x100000001b3);
+    }
+    h
+}
+
+fn valid_input(kind: &str, r: &mut Rng) -> (Vec<u8>, Option<Vec<u8>>) {
     let text: String = {
         let n = r.below(30);
         let alphabet: &[char] = &['a', 'b', ' ', 'é', '\u{203f}', '\u{1F600}', '\0', 'Z', '7'];
         (0..n).map(|_| *r.pick(alphabet)).collect()
     };
     let n = r.below(200) as usize;
-    let payload = if r.chance(1, 2) { r.bytes(n) } else { vec![r.next() as u8; n] };
-    match kind {
+    let compressed_kind = matches!(kind, "gzip" | "zlib" | "zstd" | "lz4" | "brotli");
+    let payload = if compressed_kind && r.chance(1, 10) {
+        // beyond one block of the frame formats (lz4 frames: 4 MiB blocks): a decoder that fails on a later
+        // block has already produced output
+        let k = 4_300_000 + r.below(400_000) as usize;
+        let b = r.next() as u8;
+        (0..k).map(|i| if i % 1_000_003 == 0 { b.wrapping_add(1) } else { b }).collect()
+    } else if r.chance(1, 2) {
+        r.bytes(n)
+    } else {
+        vec![r.next() as u8; n]
+    };
+    let expected = if compressed_kind { Some(payload.clone()) } else { None };
+    let bytes = match kind {
         "string" => text.into_bytes(),
         "bytes" => payload,
         "bincode_dummy" => bincode::serialize(&Dummy { foo: text, bar: r.next() >> r.below(64) }).unwrap(),
@@ -52,7 +73,8 @@ fn valid_input(kind: &str, r: &mut Rng) -> Vec<u8> {
         "zstd" => zstd::ZstdComp::new().compress(Bytes::from(payload)).unwrap().to_vec(),
         "lz4" => lz4::Lz4Comp.compress(Bytes::from(payload)).unwrap().to_vec(),
         _ => brotli::BrotliComp::generic().compress(Bytes::from(payload)).unwrap().to_vec(),
-    }
+    };
+    (bytes, expected)
 }
 
 fn perturb(r: &mut Rng, mut v: Vec<u8>) -> Vec<u8> {
@@ -103,10 +125,13 @@ fn perturb(r: &mut Rng, mut v: Vec<u8>) -> Vec<u8> {
     }
 }
 
-pub fn gen_case(r: &mut Rng) -> (String, Vec<u8>) {
+/// (kind, input, what a valid compressed input must decompress to: "<len>:<fnv64>")
+pub fn gen_case(r: &mut Rng) -> (String, Vec<u8>, Option<String>) {
     let kind = *r.pick(KINDS);
-    let v = valid_input(kind, r);
-    (kind.to_string(), perturb(r, v))
+    let (v, expected) = valid_input(kind, r);
+    let p = perturb(r, v.clone());
+    let exp = if p == v { expected.map(|e| format!("{}:{:016x}", e.len(), fnv(&e))) } else { None };
+    (kind.to_string(), p, exp)
 }
 
 pub fn decode_one(kind: &str, input: &[u8]) -> String {
@@ -127,11 +152,11 @@ pub fn decode_one(kind: &str, input: &[u8]) -> String {
                     Some((a, b)) => format!("S {} {}", a, hex(&b)),
                 })
                 .map_err(|_| ()),
-            "gzip" => deflate::DeflateDecomp::gzip().decompress(Bytes::copy_from_slice(input)).map(|b| format!("{}", b.len())).map_err(|_| ()),
-            "zlib" => deflate::DeflateDecomp::zlib().decompress(Bytes::copy_from_slice(input)).map(|b| format!("{}", b.len())).map_err(|_| ()),
-            "zstd" => zstd::ZstdDecomp.decompress(Bytes::copy_from_slice(input)).map(|b| format!("{}", b.len())).map_err(|_| ()),
-            "lz4" => lz4::Lz4Decomp.decompress(Bytes::copy_from_slice(input)).map(|b| format!("{}", b.len())).map_err(|_| ()),
-            _ => brotli::BrotliDecomp.decompress(Bytes::copy_from_slice(input)).map(|b| format!("{}", b.len())).map_err(|_| ()),
+            "gzip" => deflate::DeflateDecomp::gzip().decompress(Bytes::copy_from_slice(input)).map(|b| format!("{}:{:016x}", b.len(), fnv(&b))).map_err(|_| ()),
+            "zlib" => deflate::DeflateDecomp::zlib().decompress(Bytes::copy_from_slice(input)).map(|b| format!("{}:{:016x}", b.len(), fnv(&b))).map_err(|_| ()),
+            "zstd" => zstd::ZstdDecomp.decompress(Bytes::copy_from_slice(input)).map(|b| format!("{}:{:016x}", b.len(), fnv(&b))).map_err(|_| ()),
+            "lz4" => lz4::Lz4Decomp.decompress(Bytes::copy_from_slice(input)).map(|b| format!("{}:{:016x}", b.len(), fnv(&b))).map_err(|_| ()),
+            _ => brotli::BrotliDecomp.decompress(Bytes::copy_from_slice(input)).map(|b| format!("{}:{:016x}", b.len(), fnv(&b))).map_err(|_| ()),
         }
     });
     match res {
@@ -141,7 +166,7 @@ pub fn decode_one(kind: &str, input: &[u8]) -> String {
     }
 }
 
-fn cases_from(args: &[String]) -> Vec<(String, Vec<u8>)> {
+fn cases_from(args: &[String]) -> Vec<(String, Vec<u8>, Option<String>)> {
     if args[0] == "gen" {
         let seed: u64 = args[1].parse().unwrap();
         let n: u64 = args[2].parse().unwrap();
@@ -153,7 +178,8 @@ fn cases_from(args: &[String]) -> Vec<(String, Vec<u8>)> {
             .filter(|l| l.starts_with("in "))
             .map(|l| {
                 let f: Vec<&str> = l.split_whitespace().collect();
-                (f[1].to_string(), unhex(f.get(2).copied().unwrap_or("-")))
+                let exp = f.get(3).and_then(|t| t.strip_prefix("exp=")).map(|t| t.to_string());
+                (f[1].to_string(), unhex(f.get(2).copied().unwrap_or("-")), exp)
             })
             .collect()
     }
@@ -164,10 +190,13 @@ pub fn child(args: &[String]) {
     let skip: usize = args.last().unwrap().parse().unwrap();
     let cases = cases_from(&args[..args.len() - 1]);
     let stdout = std::io::stdout();
-    for (kind, input) in cases.into_iter().skip(skip) {
+    for (kind, input, exp) in cases.into_iter().skip(skip) {
         {
             let mut o = stdout.lock();
-            let _ = writeln!(o, "in {} {}", kind, hex(&input));
+            let _ = match &exp {
+                Some(e) => writeln!(o, "in {} {} exp={}", kind, if input.is_empty() { "-".to_string() } else { hex(&input) }, e),
+                None => writeln!(o, "in {} {}", kind, hex(&input)),
+            };
             let _ = o.flush();
         }
         let line = decode_one(&kind, &input);
